@@ -52,6 +52,21 @@ class Hub:
         self.closed_by_mgr: set = set()
         self.rx: Dict[str, List[dict]] = {}  # all abstract frames ever emitted per connection
 
+    @classmethod
+    def adopt(cls, net, mgr, timecode: bool) -> "Hub":
+        """attach the recorder to a manager that somebody else created and runs (pytest plugin)"""
+        h = cls.__new__(cls)
+        h.timecode, h.chunk, h.space = timecode, None, None
+        h.hs = F.hdr_struct(timecode).size
+        h.net, h.mgr, h.timing = net, mgr, True
+        h._inst = None
+        h.payloads = F.Payloads()
+        h.events, h.raw = [], {}
+        h.crashed, h.closed_by_mgr, h.rx = None, set(), {}
+        h._orig_step = net.step
+        net.step = h._recording_step
+        return h
+
     # ------------------------------------------------------------------ env
     def open(self, name: str):
         c = self.net.open_conn(name)
